@@ -139,6 +139,14 @@ def history_package(rng, gated: set) -> dict:
         "def make_user() -> AbsUser:\n    base = _Base()\n    other = _OtherAlias()\n    return AbsUser()\n"
     )
     files["src/pk/gamma_user.py"] = "from pk.core._base import _Base\n\n\nclass DirectUser(_Base):\n    pass\n"
+    # names that are used as types but are no classes of the model (NewType, alias of a class), in the module that defines them
+    # and in modules generated before and after it
+    files["src/pk/ids.py"] = (
+        "from typing import NewType\nfrom pathlib import Path\n\nUserId = NewType(\"UserId\", int)\nLocation = Path\n\n\n"
+        "def next_id(u: UserId) -> UserId: ...\n\n\ndef where(p: Location) -> Location: ...\n"
+    )
+    files["src/pk/aa_before_ids.py"] = "from pk.ids import UserId, Location\n\n\ndef find_before(u: UserId, p: Location) -> UserId: ...\n"
+    files["src/pk/users_after_ids.py"] = "from pk.ids import UserId\n\n\nclass Users:\n    def find(self, u: UserId) -> UserId: ...\n"
     return files
 
 
